@@ -11,6 +11,7 @@ against symbolic suites, runners and files.
 import ast
 
 from .. import effects
+from ..objects import ObjectDomain
 from ..absint import FALSE, NONE, TOP, TRUE, State, exc, val
 from ..astutil import FUNC_TYPES, dotted, norm
 from ..loader import AnalysisError
@@ -52,7 +53,7 @@ KINDS = {
 }
 
 
-class NodeDomain(effects.EffectDomain):
+class NodeDomain(ObjectDomain):
     """One symbolic node of a suite tree; recursive calls of the utilities are answered symbolically."""
 
     def __init__(self, classes, kind, children=(X, Y), stubs=None, **kw):
@@ -94,19 +95,57 @@ class NodeDomain(effects.EffectDomain):
             return list(self.children)
         return super().iter_exact(value)
 
+    def _callee(self, interp, call, st, fr):
+        target = interp.resolve_callee(call, st, fr, self.classes)
+        if target is None and isinstance(call.func, ast.Name) and call.func.id == getattr(fr.func, "name", None) and not st.has(fr.local(call.func.id)):
+            return (fr.func, None, False)   # a function calling itself by name
+        return target
+
+    def _on_stack(self, f, fr):
+        c = fr
+        while c is not None:
+            if c.func is f:
+                return True
+            c = c.caller
+        return False
+
     def call(self, interp, call, st, fr):
         d = dotted(call.func) or ""
+        entry = getattr(self, "entry_name", None)
+        through_helper = False
+        if d not in self.stubs and entry in self.stubs and isinstance(call.func, ast.Name):
+            # a helper of the analysed utility that calls itself on a child: that is the recursion of the utility -- the inductive hypothesis answers
+            target = self._callee(interp, call, st, fr)
+            if target is not None and self._on_stack(target[0], fr):
+                d = entry
+                through_helper = True
         if d in self.stubs:
+            from ..absint import heap_key, is_handle, unbox_deep
             out = []
             exprs = [a.value if isinstance(a, ast.Starred) else a for a in call.args] + [k.value for k in call.keywords]
-            for r in interp.eval_list(exprs, st, fr):
+            share = [through_helper and not isinstance(a, ast.Starred) for a in call.args] + [through_helper and k.arg is not None for k in call.keywords]
+            for r in interp.eval_list(exprs, st, fr, share=share):
                 if r.kind == "exc":
                     out.append(r)
                     continue
-                pos = tuple(r.value[: len(call.args)])
-                kw = tuple((k.arg, v) for k, v in zip(call.keywords, r.value[len(call.args):]))
+                # a list the helper fills for its caller (an accumulator handed down the recursion): by the inductive
+                # hypothesis the recursive call appends what the utility yields for that child
+                accs = [v for v in r.value if is_handle(v) and isinstance(r.state.get(heap_key(v), None), tuple) and r.state.get(heap_key(v))[:1] == ("tuple",)]
+                plain = [None if is_handle(v) and v in accs else unbox_deep(v, r.state) for v in r.value]
+                pos = tuple(v for v in plain[: len(call.args)] if v is not None)
+                kw = tuple((k.arg, v) for k, v in zip(call.keywords, plain[len(call.args):]) if v is not None)
+                target = self._callee(interp, call, r.state, fr)
+                if target is not None and not accs:
+                    pos, kw = self._positional(target[0], pos, kw, strip=(d == entry))
+                elif accs and getattr(self, "entry", None) is not None:
+                    pos, kw = self._positional(self.entry, pos, kw, strip=True)
                 log = r.state.get("ev.calls", ())
-                out.append(val(self.stubs[d](pos, kw), r.state.set("ev.calls", log + ((d, pos, kw, "ok"),))))
+                answer = self.stubs[d](pos, kw)
+                s2 = r.state.set("ev.calls", log + ((d, pos, kw, "ok"),))
+                if len(accs) == 1 and isinstance(answer, tuple) and answer[:1] == ("tuple",):
+                    out.append(val(NONE, s2.set(heap_key(accs[0]), s2.get(heap_key(accs[0])) + answer[1:])))
+                else:
+                    out.append(val(answer, s2))
             return out
         if d in ("iter", "type", "isinstance") and call.args:
             out = []
@@ -125,6 +164,41 @@ class NodeDomain(effects.EffectDomain):
             return out
         return super().call(interp, call, st, fr)
 
+    def _positional(self, f, pos, kw, strip=False):
+        """Keyword arguments that name the next positional parameters of ``f`` moved to their positions; trailing
+        arguments that merely restate the defaults of the analysed utility dropped."""
+        names = [a.arg for a in f.args.posonlyargs + f.args.args]
+        given = dict(kw)
+        pos = list(pos)
+        for n_ in names[len(pos):]:
+            if n_ not in given:
+                break
+            pos.append(given.pop(n_))
+        entry = getattr(self, "entry", None)
+        if strip and entry is not None and not given:
+            eparams = entry.args.posonlyargs + entry.args.args
+            defaults = dict(zip([a.arg for a in eparams][len(eparams) - len(entry.args.defaults):], entry.args.defaults))
+            while len(pos) > 1 and len(pos) <= len(eparams):
+                dflt = defaults.get(eparams[len(pos) - 1].arg)
+                if isinstance(dflt, ast.Constant) and self.constant(dflt) == pos[-1]:
+                    pos.pop()
+                else:
+                    break
+        return tuple(pos), tuple((k, v) for k, v in kw if k in given)
+
+    def apply(self, interp, fn, pos, kw, st, fr):
+        # a stubbed utility handed around as a value (map(iterate_tests, suite), partial(filter_by_ids, ...)): the same symbolic answer
+        entry = getattr(self, "entry_name", None)
+        recursive = isinstance(fn, tuple) and fn[:1] == ("func",) and entry in self.stubs and getattr(fn[1], "name", None) not in self.stubs and self._on_stack(fn[1], fr)
+        if recursive or (isinstance(fn, tuple) and fn[:1] == ("func",) and getattr(fn[1], "name", None) in self.stubs and isinstance(getattr(fn[1], "_parent", None), ast.Module)):
+            from ..absint import unbox_deep
+            d = entry if recursive else fn[1].name
+            pos, kw = tuple(unbox_deep(v, st) for v in pos), tuple((k, unbox_deep(v, st)) for k, v in kw)
+            pos, kw = self._positional(fn[1], pos, kw, strip=(d == entry))
+            log = st.get("ev.calls", ())
+            return [val(self.stubs[d](pos, kw), st.set("ev.calls", log + ((d, pos, kw, "ok"),)))]
+        return super().apply(interp, fn, pos, kw, st, fr)
+
     def store_subscript(self, target, value, st, fr, interp):
         # node._tests[:] = <list>: the suite's tests are replaced in place
         if isinstance(target.value, ast.Attribute) and target.value.attr == "_tests" and isinstance(target.value.value, ast.Name) \
@@ -139,7 +213,9 @@ class NodeDomain(effects.EffectDomain):
 
 
 def _run(ctx, dom, f, argv):
-    return effects.run(ctx, dom, f, None, argv, state=State(), depth=4)
+    dom.entry_name = f.name
+    dom.entry = f
+    return effects.run(ctx, dom, f, None, argv, state=State(), depth=6)
 
 
 def check_iterate(ctx):
@@ -257,6 +333,29 @@ def check_flatten(ctx):
               construct=f"{TESTSUITE}:_flatten_tests::empty custom suite gets sort key None")
 
 
+def _suite_contents(dom, r):
+    """The tests of the TestSuite a run returns: those handed to the constructor, then those added with addTest / addTests."""
+    v = r.value
+    if not (isinstance(v, tuple) and v[:2] == ("new", "TestSuite")):
+        return None
+    got = []
+    if v[2]:
+        first = dom._set_elements(v[2][0]) if isinstance(v[2][0], tuple) and v[2][0][:1] == ("set",) else None
+        els = list(v[2][0][1:]) if isinstance(v[2][0], tuple) and v[2][0][:1] == ("tuple",) else first
+        if els is None or len(v[2]) > 1:
+            return None
+        got.extend(els)
+    for e in r.state.get("ev.calls", ()):
+        if e[0] in ("<TestSuite>.addTest", "<TestSuite>.addTests") and e[1][:1] == (v,):
+            if e[0].endswith("addTest") and len(e[1]) == 2:
+                got.append(e[1][1])
+            elif len(e[1]) == 2 and isinstance(e[1][1], tuple) and e[1][1][:1] == ("tuple",):
+                got.extend(e[1][1][1:])
+            else:
+                return None
+    return got
+
+
 def check_sorted(ctx):
     f = module_function(ctx, TESTSUITE, "sorted_tests")
     p = [a.arg for a in f.args.args]
@@ -292,14 +391,15 @@ def check_sorted(ctx):
                     continue
                 if len(flat) != 1 or flat[0][1][:1] != (NODE,) or unpack not in list(flat[0][1][1:]) + [v for _, v in flat[0][2]]:
                     problems.add("_flatten_tests is not called once with the argument and the given unpack_outer")
-                want = ("tuple", O2, O1, O3) if leaf_ids else ("tuple",)
-                if not (isinstance(r.value, tuple) and r.value[:2] == ("new", "TestSuite") and r.value[2] == (want,)):
-                    problems.add(f"sorted_tests returns {r.value!r}; expected TestSuite of every flattened test ordered by its key")
+                want = [O2, O1, O3] if leaf_ids else []
+                got = _suite_contents(dom, r)
+                if got != want:
+                    problems.add(f"sorted_tests returns {r.value!r}" + (f" holding {got!r}" if got is not None else "") + "; expected TestSuite of every flattened test ordered by its key")
             ctx.check("R-DUP-CHECK-FIRST", f"sorted_tests with {label}{', unpack_outer' if unpack == TRUE else ''}", f, bool(res) and not problems, "; ".join(sorted(problems)) or "no path", examined=len(res),
                       construct=f"{TESTSUITE}:sorted_tests::{label}{' unpack' if unpack == TRUE else ''}")
 
 
-class ProgramDomain(effects.EffectDomain):
+class ProgramDomain(ObjectDomain):
     """TestProgram.__init__: argument parsing is replaced by its effect on the three attributes it decides."""
 
     enter_returns_self = True
@@ -364,8 +464,9 @@ def check_program(ctx):
                     final_test = FILTERED if load_list else ("sym", "loaded-tests")
                     if load_list:
                         want_ids = {"pkg.mod.Test.test_a", "pkg.mod.Test.test_b"}
-                        ok_ids = len(filt) == 1 and filt[0][1][:1] == (("sym", "loaded-tests"),) and len(filt[0][1]) == 2 and isinstance(filt[0][1][1], tuple) and \
-                            {x[1] for x in filt[0][1][1][1:] if isinstance(x, tuple) and x[:1] == ("const",)} == want_ids and len(filt[0][1][1]) - 1 == len(want_ids)
+                        got_ids = dom._set_elements(filt[0][1][1]) if len(filt) == 1 and len(filt[0][1]) == 2 else None   # a list, a tuple or a set -- whatever supports `in`
+                        ok_ids = got_ids is not None and filt[0][1][:1] == (("sym", "loaded-tests"),) and \
+                            {x[1] for x in got_ids if isinstance(x, tuple) and x[:1] == ("const",)} == want_ids and len(got_ids) == len(want_ids)
                         if not ok_ids:
                             problems.add(f"filter_by_ids receives {[e[1] for e in filt]!r}; expected once (the loaded tests, the ids of every line of the list file, stripped and decoded)")
                         if r.state.get("self.test") != FILTERED:
@@ -409,7 +510,7 @@ def check_program(ctx):
             return [("val", ("const", leaf_ids[n.split(".")[0]]))]
         return None
 
-    dom = effects.EffectDomain(ctx.classes, oracle=oracle, results={"iterate_tests": [("tuple",) + tuple(("wobj", k) for k in leaf_ids)]}, track=lambda d: d == "iterate_tests", log_cap=30)
+    dom = ObjectDomain(ctx.classes, oracle=oracle, results={"iterate_tests": [("tuple",) + tuple(("wobj", k) for k in leaf_ids)]}, track=lambda d: d == "iterate_tests", log_cap=30)
     T = ("sym", "the-suite")
     res = effects.run(ctx, dom, lt, None, {lt.args.args[0].arg: T}, state=State(), depth=2)
     want = ("tuple", ("tuple", ("const", "pkg.a"), ("const", "pkg.b")), ("tuple", ("const", "broken_mod")))
@@ -425,7 +526,7 @@ def check_program(ctx):
     problems = set()
     n = 0
     for errors in (("tuple",), ("tuple", ("const", "broken_mod"))):
-        dom = effects.EffectDomain(ctx.classes, attrs={"self": ("self",), "self.stdout": ("wobj", "out"), "loader.errors": errors}, oracle=lambda n_, pos, kw: [("val", NONE)] if n_.startswith("out.") else None,
+        dom = ObjectDomain(ctx.classes, attrs={"self": ("self",), "self.stdout": ("wobj", "out"), "loader.errors": errors}, oracle=lambda n_, pos, kw: [("val", NONE)] if n_.startswith("out.") else None,
                                    results={"list_test": [("tuple", ("tuple", ("const", "pkg.a"), ("const", "pkg.b")), ("tuple",))], "sys.exit": []}, raises={"sys.exit": [("exc", "SystemExit")]}, track=lambda d: d in ("list_test", "sys.exit"))
         params = [a.arg for a in rl.args.args[1:]]
         res = effects.run(ctx, dom, rl, rcls, {params[0]: T, params[1]: ("wobj", "loader")} if len(params) > 1 else {params[0]: T}, state=State(), depth=2)
@@ -444,13 +545,13 @@ def check_callers(ctx):
     ds = own_method(ctx, RUN, "TestProgram", "_do_discovery")
     cls = ctx.classes.get(RUN, "TestProgram")
     SORTED = ("sym", "sorted-suite")
-    dom = effects.EffectDomain(ctx.classes, attrs={"self": ("self",)}, results={"sorted_tests": [SORTED]}, track=lambda d: d == "sorted_tests")
+    dom = ObjectDomain(ctx.classes, attrs={"self": ("self",)}, results={"sorted_tests": [SORTED]}, track=lambda d: d == "sorted_tests")
     res = effects.run(ctx, dom, ds, cls, {}, state=State([("self.test", ("sym", "discovered"))]), depth=2)
     ok = bool(res) and all(r.kind == "val" and r.state.get("self.test") == SORTED and [e[1][:1] for e in r.state.get("ev.calls", ()) if e[0] == "sorted_tests"] == [(("sym", "discovered"),)] for r in res)
     ctx.check("R-RESULT-USED", "discovered tests are replaced by the sorted suite", ds, ok, "self.test is not replaced by sorted_tests(self.test) after discovery", examined=len(res), construct=f"{RUN}:TestProgram._do_discovery::assign")
     fcls = ctx.classes.get(TESTSUITE, "FixtureSuite")
     fs = own_method(ctx, TESTSUITE, "FixtureSuite", "sort_tests")
-    dom = effects.EffectDomain(ctx.classes, attrs={"self": ("self",)}, results={"sorted_tests": [SORTED]}, track=lambda d: d == "sorted_tests")
+    dom = ObjectDomain(ctx.classes, attrs={"self": ("self",)}, results={"sorted_tests": [SORTED]}, track=lambda d: d == "sorted_tests")
     res = effects.run(ctx, dom, fs, fcls, {}, state=State(), depth=2)
     problems = set()
     for r in res:
